@@ -48,7 +48,8 @@ EXTRA = [
 
 
 def corpus_list():
-    gs = corpus.MODES + EXTRA
+    # 'number' / 'basetypes': NUMBER and BASETYPE are ordered choices shared by all metamodels
+    gs = corpus.MODES + EXTRA + [g for g in corpus.BASIC if g['name'] in ('number', 'basetypes')]
     if tier() == 'thorough':
         gs = gs + [g for g in corpus.BASIC if g['name'] in (
             'noskipws-rule', 'noskipws-inherit', 'noskipws-reset', 'ws-rule', 'ws-rule-comment',
